@@ -260,6 +260,20 @@ class TRSpec(object):
                 if rs[-1][0] == 'exc':
                     outs.append((s1, rs[-1])); continue
                 src, coll = rs[0][1], rs[1][1]
+                if ex.is_kind(s1, src, 'dictkeys') and ex.is_kind(s1, coll, 'list', 'tuple'):
+                    # the search the other way round: the first key OF THE RECORDING (storage order: unknown) that is one of the listed keys:
+                    # some present key that is in the list -- any of them -- or None when no listed key is present
+                    d = s1.rd(src, 'of'); sp = ex.spine(s1, coll)
+                    if sp is None:
+                        raise Unsupported('next(x for x in <recording keys> if x in <list of unknown length>)')
+                    k = fresh('some_present_listed_key')
+                    sF = s1.copy(); sF.assume(z3.And(sF.dhas(d, k), z3.Or(*[k == e_ for e_ in sp]) if sp else z3.BoolVal(False)))
+                    if sp and sF.sat():
+                        outs.append((sF, ('val', k)))
+                    sN = s1; sN.assume(z3.And(*[z3.Not(sN.dhas(d, e_)) for e_ in sp]) if sp else z3.BoolVal(True))
+                    if sN.sat():
+                        outs.append((sN, ('val', NONE)))
+                    continue
                 if not ex.is_kind(s1, coll, 'dictkeys'):
                     raise Unsupported('next(... in <unknown collection>)')
                 d = s1.rd(coll, 'of')
